@@ -134,4 +134,22 @@ Theorem C05_levels_need_the_last_decision_witness :
   Some (1, 0, 1, 0).
 Proof. exact levels_without_last_decision_refuted. Qed.
 
+(* the fragment with DECLARATIONS: `var` and `const` sections in front of the main block - the section keyword on a line of level 0,
+   every member on its own Declaration line one level deeper; the parser re-types var/const and `=` (r_toks = map retype ...) *)
+From PasfmtVerif Require Import Model.Fragment Proofs.FragmentProofs Proofs.FragmentParentsProofs Proofs.FragmentUnitProofs Model.Format Proofs.FormatFragmentProofs.
+Theorem C05_fragment_unit_declarations_one_per_line :
+  forall (ds : list decl) (ss : stmts),
+  wf ss = true ->
+  let r := parse_file_model (render_unit ds ss) [] in
+  r_err r = None /\
+  r_lines r = expected_unit ds ss /\ r_toks r = map Fragment.retype (render_unit ds ss).
+Proof. exact fragment_unit_parse_file. Qed.
+
+Theorem C05_fragment_unit_sections :
+  forall (ds : list decl) (ss : stmts),
+  wf ss = true ->
+  exists rest : list lline,
+    r_lines (parse_file_model (render_unit ds ss) []) = decl_lines 0 ds ++ rest.
+Proof. exact fragment_unit_sections. Qed.
+
 
